@@ -46,6 +46,9 @@ type wkbModel struct {
 	c        *Ctx
 	stream   []wkbItem
 	pos      int
+	sub      int     // bytes of stream[pos] already taken by a raw read
+	pending  []oByte // bytes of an item being put together by raw writes
+	nextID   int
 	problems []string
 	bigMake  string
 	mpT, gcT types.Type
@@ -84,6 +87,10 @@ func (w *wkbModel) problem(format string, a ...interface{}) {
 
 // emit appends the items for one value handed to binary.Write.
 func (w *wkbModel) emit(v oval, styp types.Type, order string) bool {
+	if len(w.pending) > 0 {
+		w.problem("the bytes of %s are followed by another value before they are complete", w.pending[0].item())
+		return false
+	}
 	if iv, ok := v.(oIface); ok {
 		if iv.styp != nil {
 			styp = iv.styp
@@ -219,11 +226,15 @@ func (w *wkbModel) fill(target oval, order string) (bool, string) {
 func newWkbModel(c *Ctx) *wkbModel {
 	m := newClipModel(c)
 	m.it.maxDepth = 48
+	m.it.maxLoop = 1 << 17 // a codec may walk a chunk point by point, or byte by byte
 	w := &wkbModel{m: m, c: c, mpT: c.P.NamedType("geom", "MultiPoint"), gcT: c.P.NamedType("geom", "GeometryCollection")}
 	eof := oIface{opaque: &oOpaque{name: "unexpected EOF", isError: true}}
 	errV := oIface{opaque: &oOpaque{name: "error", isError: true}}
 	m.it.stub = func(f *types.Func, recv oval, args []oval) ([]oval, bool) {
 		full := f.FullName()
+		if out, ok := w.byteStub(f, recv, args, eof, errV); ok {
+			return out, true
+		}
 		switch {
 		case full == "encoding/binary.Write" && len(args) == 3:
 			if !w.emit(args[2], nil, orderName(args[1])) {
@@ -241,18 +252,7 @@ func newWkbModel(c *Ctx) *wkbModel {
 			return []oval{oNil{}}, true
 		case f.Name() == "Len" && len(args) == 0 && recv != nil:
 			if iv, ok := recv.(oIface); ok && iv.opaque != nil && iv.opaque.name == "stream" {
-				n := 0
-				for _, it := range w.stream[w.pos:] {
-					switch it.kind {
-					case "U8":
-						n++
-					case "U32":
-						n += 4
-					default:
-						n += 8
-					}
-				}
-				return []oval{oInt(n)}, true
+				return []oval{oInt(w.bytesLeft())}, true
 			}
 		case full == "fmt.Errorf" || full == "errors.New":
 			return []oval{errV}, true
@@ -262,26 +262,13 @@ func newWkbModel(c *Ctx) *wkbModel {
 			return []oval{oIface{opaque: &oOpaque{name: "stream", methods: []string{"Read", "Write", "Len"}}}}, true
 		case full == "(*bytes.Buffer).Bytes":
 			return []oval{strVal(types.NewSlice(types.Typ[types.Byte]), "<stream>")}, true
-		case full == "io.ReadFull" && len(args) == 2:
-			// header bytes fetched in one go: fill a byte slice from U8 items only
-			if sl, ok := args[1].(oSlice); ok {
-				for i := 0; i < sl.length(); i++ {
-					if w.pos >= len(w.stream) {
-						return []oval{oInt(i), eof}, true
-					}
-					it := w.stream[w.pos]
-					if it.kind != "U8" {
-						return []oval{oTop{"raw byte read of a multi-byte item"}, oTop{"?"}}, true
-					}
-					w.pos++
-					sl.set(i, oInt(it.val))
-				}
-				return []oval{oInt(sl.length()), oNil{}}, true
-			}
 		}
 		if f.Pkg() != nil && c.P.Decl(f) == nil {
 			switch f.Pkg().Path() {
 			case "encoding/binary", "io", "bytes", "bufio":
+				if out, ok := m.it.coreLib(f, recv, args); ok {
+					return out, true
+				}
 				return []oval{oTop{full + " is not modelled"}}, true
 			}
 		}
@@ -485,7 +472,7 @@ func c05model(c *Ctx, ruleW, ruleR, ruleT string) {
 			if v.msg == "" && v.unk == "" {
 				v.n++
 				runs++
-				w.stream, w.pos, w.problems = nil, 0, nil
+				w.reset(nil)
 				res, why := w.m.it.Call(wr, nil, []oval{streamH, ord[o], w.m.it.ifaceOf(w.value(g))}, 0)
 				switch {
 				case why != "":
@@ -501,8 +488,8 @@ func c05model(c *Ctx, ruleW, ruleR, ruleT string) {
 						v.unk = fmt.Sprintf("Write(%s): the error result is %s", g.tn, showVal(res[0]))
 					} else if !eq {
 						v.msg = fmt.Sprintf("Write(%s, order %s) returns an error for a supported geometry", g.tn, o)
-					} else if !sameItems(w.stream, want) {
-						v.msg = fmt.Sprintf("Write(%s, order %s) produces  %s  — the OGC layout is  %s  (flag, type code, counts = number of members that follow, members as complete WKB, everything in the requested order)", g.tn, o, showItems(w.stream), showItems(want))
+					} else if !sameItems(w.written(), want) {
+						v.msg = fmt.Sprintf("Write(%s, order %s) produces  %s  — the OGC layout is  %s  (flag, type code, counts = number of members that follow, members as complete WKB, everything in the requested order)", g.tn, o, showItems(w.written()), showItems(want))
 					}
 				}
 			}
@@ -528,7 +515,7 @@ func c05model(c *Ctx, ruleW, ruleR, ruleT string) {
 				goodStreams = append(goodStreams, ref)
 				r.n++
 				runs++
-				w.stream, w.pos, w.problems = append([]wkbItem{}, ref...), 0, nil
+				w.reset(append([]wkbItem{}, ref...))
 				res, why := w.m.it.Call(rd, nil, []oval{streamH}, 0)
 				what := fmt.Sprintf("Read of a %s in order %s", g.tn, o)
 				if mixed {
@@ -569,7 +556,7 @@ func c05model(c *Ctx, ruleW, ruleR, ruleT string) {
 				ps = append(ps, oBoxPt{int64(100000 + 4*i), int64(100002 + 4*i)})
 			}
 			g := wkbGeom{tn: "LineString", pts: ps}
-			w.stream, w.pos, w.problems = g.layout("L", func(int) string { return "L" }, 0), 0, nil
+			w.reset(g.layout("L", func(int) string { return "L" }, 0))
 			runs++
 			res, why := w.m.it.Call(rd, nil, []oval{streamH}, 0)
 			var got []oBoxPt
@@ -625,7 +612,7 @@ func c05model(c *Ctx, ruleW, ruleR, ruleT string) {
 				return
 			}
 			truns++
-			w.stream, w.pos, w.problems = append([]wkbItem{}, items...), 0, nil
+			w.reset(append([]wkbItem{}, items...))
 			res, why := w.m.it.Call(rd, nil, []oval{streamH}, 0)
 			if why != "" {
 				if len(why) > 6 && why[:6] == "panic:" {
@@ -635,7 +622,14 @@ func c05model(c *Ctx, ruleW, ruleR, ruleT string) {
 				}
 				return
 			}
-			if eq, ok := oEqual(res[1], oNil{}); wantErr && (!ok || eq) {
+			eq, ok := oEqual(res[1], oNil{})
+			if !ok {
+				if unk == "" {
+					unk = fmt.Sprintf("%s: the error result is %s", what, showVal(res[1]))
+				}
+				return
+			}
+			if wantErr && eq {
 				msg = fmt.Sprintf("Read accepts %s (%s) and returns %s without an error", what, showItems(items), showVal(res[0]))
 			}
 		}
